@@ -60,6 +60,12 @@ class Rational(primitives.Expression):
         return self.Numerator == other.Numerator and \
                self.Denominator == other.Denominator
 
+    def __hash__(self):
+        # consistent with __eq__: a rational with denominator one equals its numerator
+        if self.Denominator == 1:
+            return hash(self.Numerator)
+        return hash((type(self).__name__, self.Numerator, self.Denominator))
+
     def __add__(self, other):
         if not isinstance(other, Rational):
             newother = Rational(other)
